@@ -87,3 +87,42 @@ def run_stage(ctx, module="C13Core.tla", timeout=300, obligations=None, claim=No
         ctx.assumptions.append("Apalache: the normal form of the 1-d integer core (spec/C13Core.tla) is an inductive invariant for unbounded "
                                "coordinates, vectors, factors and reference points (2 of 2 obligations, reported, not relied on)")
     return info
+
+
+def tlaps_stage(ctx, module, needs, timeout=600):
+    """run the TLA+ proof manager on spec/<module> (copied with the modules it extends into the scratch directory, where tlapm
+    keeps its cache); reported in the evidence: proved / not-proved / skipped - never a verdict"""
+    exe = shutil.which("tlapm")
+    info = {"tool": "tlapm", "module": module}
+    if exe is None:
+        info["skipped"] = "tlapm not on PATH"
+        ctx.notes["tlaps"] = info
+        return info
+    work = os.path.join(ctx.scratch, "tlaps_" + module[:-4])
+    os.makedirs(work, exist_ok=True)
+    for f in (module, *needs):
+        shutil.copy(os.path.join(SPEC_DIR, f), work)
+    t0 = time.time()
+    try:
+        p = subprocess.run([exe, "--threads", "4", module], cwd=work, capture_output=True, text=True, timeout=timeout)
+        text = p.stdout + p.stderr
+    except subprocess.TimeoutExpired:
+        text = ""
+        info["outcome"] = "timeout"
+    info["wall_s"] = round(time.time() - t0, 1)
+    import re
+    m = re.search(r"All (\d+) obligations? proved", text)
+    f = re.search(r"(\d+)/(\d+) obligations? failed", text)
+    if m:
+        info.update(outcome="proved", obligations=int(m.group(1)))
+        ctx.assumptions.append(f"TLAPS: spec/{module} - {m.group(1)} proof obligations checked by the proof manager (reported, not relied on)")
+    elif f:
+        # a back end that runs out of time on a loaded machine also "fails" an obligation: unlike Apalache's counterexample this
+        # is not a refutation, so it is a note (Apalache decides the same two facts)
+        info.update(outcome="not-proved", failed=int(f.group(1)), obligations=int(f.group(2)), output_tail=text.strip().split("\n")[-8:])
+    else:
+        info.setdefault("outcome", "unknown")
+        info["output_tail"] = text.strip().split("\n")[-5:]
+    shutil.rmtree(work, ignore_errors=True)
+    ctx.notes["tlaps"] = info
+    return info
